@@ -1124,6 +1124,12 @@ struct StmW {
         int  k    = (int)((uint64_t)op.a[1] % K);
         int  kind = (int)((uint64_t)op.kind % T_COUNT);
         U32  txt  = mask_units<C>(op.s.empty() ? U32() : unpack_units(op.s[0]));
+        const size_t big = (size_t)((uint64_t)op.a[5] % 300000); // a few operations ask for far more than 64 Ki units at once
+        if (big != 0) {
+            txt.resize(big);
+            for (size_t i = 0; i < big; i++) txt[i] = (char32_t)('a' + (i * 7 + big) % 26);
+            qsim::probe("seq.stream.big-request");
+        }
         cx.opname = stm_op_name[kind];
         Stm &s = *obj[j];
         U32 &m = model[j];
@@ -1398,7 +1404,7 @@ struct StmW {
                 break;
             }
             case T_SETLENGTH: {
-                size_t n = (size_t)((uint64_t)op.a[2] % (m.size() + 12));
+                size_t n = big ? m.size() + big : (size_t)((uint64_t)op.a[2] % (m.size() + 12));
                 {
                     LibCall lc;
                     s.SetLength((SizeT)n);
@@ -1441,7 +1447,7 @@ struct StmW {
                 break;
             }
             case T_EXPECT: {
-                size_t n = (size_t)((uint64_t)op.a[2] % 40);
+                size_t n = big ? big : (size_t)((uint64_t)op.a[2] % 40);
                 {
                     LibCall lc;
                     s.Expect((SizeT)n);
@@ -1450,7 +1456,7 @@ struct StmW {
                 break;
             }
             case T_RESERVE: {
-                size_t n = (size_t)((uint64_t)op.a[2] % 40);
+                size_t n = big ? big : (size_t)((uint64_t)op.a[2] % 40);
                 {
                     LibCall lc;
                     s.Reserve((SizeT)n);
@@ -1831,6 +1837,11 @@ static void generate(Plan &plan, uint64_t seed, int tier) {
             op.a[2] = (int64_t)(sel == 0 ? ops.below(40) : sel == 1 ? ops.below(300) : ops.below(4097));
         }
         if (sub >= SW_STRING && sub <= SW_VIEW) op.s.push_back(pack_units(gen_units(ops, 12, w, true)));
+        if (sub == SW_STREAM && ops.chance(1, 700)) {
+            static const int big_kinds[] = {T_WRITE, T_EXPECT, T_BUFFER, T_SETLENGTH, T_ADD_STR, T_SHL_VIEW, T_ASSIGN_VIEW};
+            op.kind = big_kinds[ops.below(7)];
+            op.a[5] = (int64_t)(65536 + ops.below(200000));
+        }
         plan.ops.push_back(op);
     }
 }
